@@ -489,11 +489,11 @@ def process_slashings (cfg : Config) (s : State) : SM State := do
   let adjusted ← u64 (sum * proportional_slashing_multiplier cfg s.fork) "adjusted slashing balance"
   let adjusted := min adjusted total_balance
   if cfg.EFFECTIVE_BALANCE_INCREMENT = 0 then invalid "division by zero"
-  require (s.balances.length ≥ s.validators.length) "balances shorter than validators"
-  for v in s.validators do
+  for (index, v) in (List.range s.validators.length).zip s.validators do
     if v.slashed && epoch + cfg.EPOCHS_PER_SLASHINGS_VECTOR / 2 = v.withdrawable_epoch then
       let _ ← u64 (v.effective_balance / cfg.EFFECTIVE_BALANCE_INCREMENT * adjusted) "penalty_numerator"
       let _ ← u64 (slashing_penalty cfg v.effective_balance adjusted total_balance) "penalty"
+      let _ ← idx s.balances index "balances"  -- decrease_balance(state, index, penalty)
   let nb := process_slashings_pure cfg s.fork epoch total_balance s.slashings s.validators s.balances
   pure { s with balances := nb ++ s.balances.drop nb.length }
 
